@@ -168,3 +168,10 @@ def oracle(line, out):
 
 
 known_match = common.no_known
+
+
+def literal_ops(lit):
+    spec = "P:%s:%s:1:5:0:01020304" % (hx((2 ** 200 + 7).to_bytes(32, "big")), hx(bytes(range(32))))
+    yield "ckd %s %d -" % (spec, lit)
+    if 1 <= lit < N:
+        yield "ckd P:%s:%s:0:0:0:none 1,2147483649 -" % (hx(lit.to_bytes(32, "big")), hx(bytes(32)))
